@@ -704,10 +704,33 @@ impl Vm {
     /// `lambda` - The lambda to emit bytecode to
     /// `expr` - The expression to quote.
     pub fn compile_quote(&mut self, lambda: &mut Lambda, expr: &Cell) -> Result<(), Error> {
+        Self::check_datum(expr)?;
         lambda.emit(OpCode::MovImmediate);
         lambda.emit(self.heap.maybe_put_cell(expr));
         lambda.emit(VCell::Acc);
         Ok(())
+    }
+
+    /// Check Datum
+    ///
+    /// A quoted constant is a datum. Data handed to eval may contain procedures, macros or
+    /// continuations, which have no representation as a constant: report them as a syntax
+    /// error instead of handing them to the heap.
+    fn check_datum(expr: &Cell) -> Result<(), Error> {
+        let mut rest = expr;
+        loop {
+            match rest {
+                Cell::Pair(car, cdr) => {
+                    Self::check_datum(car)?;
+                    rest = cdr;
+                }
+                Cell::Vector(vector) => return vector.iter().try_for_each(Self::check_datum),
+                Cell::Procedure(_) | Cell::Macro | Cell::Continuation => {
+                    return Err(InvalidSyntax(rest.to_string()));
+                }
+                _ => return Ok(()),
+            }
+        }
     }
 
     /// Compile Quasiquote
@@ -787,6 +810,7 @@ impl Vm {
             self.compile_quasiquote(lambda, rest, depth)?;
             lambda.emit(OpCode::PushAcc);
         } else {
+            Self::check_datum(rest)?;
             lambda.emit(OpCode::PushImmediate);
             lambda.emit(self.heap.maybe_put_cell(rest));
         }
